@@ -49,7 +49,8 @@ def load(kind, objs):
         st.add(o)
     return st
 TRICKY = ['%', '_', 'a%', 'x_y', '100%', 'a\\b', 'C:\\dir\\f', 'a+b', 'a.b', 'a(b', 'a[b', 'a)b', 'docs/r(final).pdf',
-          'Admin', 'admin', 'ADMIN', 'Ünï', 'a|b', 'a*', '^a$', 'get', '<get>', 'a b', "o'neil", '"q"', 'a\\']
+          'Admin', 'admin', 'ADMIN', 'Ünï', 'a|b', 'a*', '^a$', 'get', '<get>', 'a b', "o'neil", '"q"', 'a\\',
+          '$HOME', '$uid', '$$x', '$', '$type']
 
 
 def model_backend(kind, k):
